@@ -35,22 +35,30 @@ type ExtP2Claims struct {
 	Extra *int64 `cbor:"-75100,keyasint,omitempty" json:"ext-extra,omitempty"`
 }
 
-func (o *ExtP2Claims) Validate() error                    { return psa.ValidateClaims(o) }
-func (o ExtP2Claims) MarshalCBOR() ([]byte, error)         { return encoding.SerializeStructToCBOR(extEM, &o) }
-func (o *ExtP2Claims) UnmarshalCBOR(data []byte) error     { return encoding.PopulateStructFromCBOR(extDM, data, o) }
-func (o ExtP2Claims) MarshalJSON() ([]byte, error)         { return encoding.SerializeStructToJSON(&o) }
-func (o *ExtP2Claims) UnmarshalJSON(data []byte) error     { return encoding.PopulateStructFromJSON(data, o) }
+func (o *ExtP2Claims) Validate() error             { return psa.ValidateClaims(o) }
+func (o ExtP2Claims) MarshalCBOR() ([]byte, error) { return encoding.SerializeStructToCBOR(extEM, &o) }
+func (o *ExtP2Claims) UnmarshalCBOR(data []byte) error {
+	return encoding.PopulateStructFromCBOR(extDM, data, o)
+}
+func (o ExtP2Claims) MarshalJSON() ([]byte, error) { return encoding.SerializeStructToJSON(&o) }
+func (o *ExtP2Claims) UnmarshalJSON(data []byte) error {
+	return encoding.PopulateStructFromJSON(data, o)
+}
 
 type ExtP1Claims struct {
 	psa.P1Claims
 	Extra *int64 `cbor:"-75100,keyasint,omitempty" json:"ext-extra,omitempty"`
 }
 
-func (o *ExtP1Claims) Validate() error                { return psa.ValidateClaims(o) }
-func (o ExtP1Claims) MarshalCBOR() ([]byte, error)     { return encoding.SerializeStructToCBOR(extEM, &o) }
-func (o *ExtP1Claims) UnmarshalCBOR(data []byte) error { return encoding.PopulateStructFromCBOR(extDM, data, o) }
-func (o ExtP1Claims) MarshalJSON() ([]byte, error)     { return encoding.SerializeStructToJSON(&o) }
-func (o *ExtP1Claims) UnmarshalJSON(data []byte) error { return encoding.PopulateStructFromJSON(data, o) }
+func (o *ExtP1Claims) Validate() error             { return psa.ValidateClaims(o) }
+func (o ExtP1Claims) MarshalCBOR() ([]byte, error) { return encoding.SerializeStructToCBOR(extEM, &o) }
+func (o *ExtP1Claims) UnmarshalCBOR(data []byte) error {
+	return encoding.PopulateStructFromCBOR(extDM, data, o)
+}
+func (o ExtP1Claims) MarshalJSON() ([]byte, error) { return encoding.SerializeStructToJSON(&o) }
+func (o *ExtP1Claims) UnmarshalJSON(data []byte) error {
+	return encoding.PopulateStructFromJSON(data, o)
+}
 
 // ExtProfile: a registrable profile. Base 2 names must be absolute URLs.
 type ExtProfile struct {
